@@ -66,3 +66,27 @@ add(
     "Exploration: Hypothesis programs (quick 8k, thorough 100k) over the whole collections.abc surface: every MutableSequence call on ir.modules (int / slice / extended-slice get/set/del, insert, append, extend, +=, pop, remove, reverse, clear, index, count, reversed, contains), every MutableSet call on the five node sets (add, discard, remove, pop, clear, update with 0-2 iterables, |= &= -= ^=, | & - ^ and reflected forms with set / frozenset / other wrappers, comparisons, isdisjoint) and every MutableMapping call on symbolic_expressions (incl. popitem, setdefault, update from itself, whole-mapping self-assignment); return values, exception types and resulting contents are compared with the built-in operation, and the forest must equal the reference model after every call, failed calls included. Sampling, not proof.",
     "Trusts CPython list/set/dict as the reference, vlib/forest.py, Hypothesis.",
 )
+add(
+    "C05",
+    "stateful model-based testing: edit histories with interleaved lookups, every answer compared with a linear scan of a plain-data reference model",
+    "Exploration: Hypothesis edit programs (quick 3k, thorough 80k histories; block offset/size, interval address/size incl. None, block/interval/section/module moves from both ends, new blocks, save+load) with lookups after the edits and a final battery over every block/interval edge +-1 and stepped/empty/inverted ranges at interval, section, module and IR scope; each of the 18 block lookup methods must return, duplicate-free, exactly the scan's answer at interval scope and an answer between the 'inside the declared extent' scan and the plain scan at higher scopes. Sampling, not proof.",
+    "Trusts vlib/scan.py (reference model + scans written from the property text), Hypothesis. 'on' ignores the range step (pinned by the suite).",
+)
+add(
+    "C06",
+    "stateful model-based testing against linear scans (interval / section lookups and section extents)",
+    "Exploration: as C05 with the edit mix on interval addresses (None, 0, near 2^64), sizes (0 included) and moves (quick 5k, thorough 80k histories); byte_intervals_on/at at section/module/IR scope and sections_on/at at module/IR scope must equal the scan exactly (each member once) and Section.address/size must equal the reference extent rule after every edit pattern. Sampling, not proof.",
+    "Trusts vlib/scan.py, Hypothesis.",
+)
+add(
+    "C12",
+    "metamorphic testing over lookup schedules (same edit history, different lookup placements must give the same final answers) plus scan oracle",
+    "Exploration: for each generated edit history (quick 2k, thorough 50k) the history is replayed on fresh structures under the empty schedule, the every-step schedule and up to two generated placements (isolated positions, consecutive bursts, periodic); the final battery's answers must be identical across schedules and equal the scan, and every intermediate burst is checked against the scan. The harness mirrors pending-event counts to report how often the first-use / incremental / rebuild regimes of the lazy index were exercised. Sampling, not proof.",
+    "Trusts vlib/scan.py, Hypothesis; the regime classification is evidence only.",
+)
+add(
+    "C13",
+    "stateful model-based testing: mapping-op histories on symbolic_expressions with lookups compared with a scan (order and identity included)",
+    "Exploration: Hypothesis programs (quick 4k, thorough 60k) of mapping operations (set, del, pop, popitem, setdefault, update from mapping/pairs, clear, whole-mapping assignment incl. self-assignment), interval address/size changes and moves, save+load; symbolic_expressions_at/_at_offset at interval scope must return exactly the ordered list of (interval, offset, expression) triples the scan selects (identity of interval and expression), and at section/module/IR scope an answer between the in-extent scan and the plain scan, per interval in increasing order. Sampling, not proof.",
+    "Trusts vlib/scan.py, Hypothesis.",
+)
